@@ -290,6 +290,18 @@ func r10HandleRequest(c *Ctx, rule string, hr *ssa.Function) {
 			}
 			// pre-auth region: only the allow-list of module calls
 			if !strings.HasPrefix(name, "Havoc/") && !strings.HasPrefix(name, "(*Havoc/") && !strings.HasPrefix(name, "(Havoc/") {
+				// a Range callback running before authentication must not act on the ranged (other) clients
+				if inClosure && !strings.HasPrefix(name, "builtin.") && !strings.HasPrefix(name, "fmt.") {
+					for _, a := range call.Common().Args {
+						if DerivesFromNarrowCalls(a, func(v ssa.Value) bool {
+							pp, ok := v.(*ssa.Parameter)
+							return ok && pp.Parent() == fn
+						}) {
+							c.R.Bad(rule, fname, "pre-auth call "+shortCallee(name)+" on a ranged client", c.pos(call.Pos()), "code that runs before authentication calls "+name+" on a value taken from another client's table entry (e.g. closes its connection)")
+							return
+						}
+					}
+				}
 				return
 			}
 			switch {
@@ -317,6 +329,14 @@ func r10HandleRequest(c *Ctx, rule string, hr *ssa.Function) {
 					}
 					if !okEv {
 						c.R.Bad(rule, fname, "pre-auth SendEvent", c.pos(call.Pos()), "an event other than UserDoNotExists/UserAlreadyExits/Authenticated(false) is sent before authentication")
+						return
+					}
+				}
+				if name == "(*Havoc/cmd/server.Teamserver).SendEvent" || name == "(*Havoc/cmd/server.Teamserver).RemoveClient" {
+					// only the connecting socket itself may be answered or dropped before authentication
+					args := CallArgs(call)
+					if len(args) == 0 || !r10OwnID(hr, fn, args[0]) {
+						c.R.Bad(rule, fname, "pre-auth "+shortCallee(name)+" targets the connecting client", c.pos(call.Pos()), "before authentication a reply/removal is addressed to a client id other than the connecting socket's own: an unauthenticated connection can make the teamserver drop or message an established operator session")
 						return
 					}
 				}
@@ -787,4 +807,100 @@ func R10PreAuthAssert(c *Ctx) {
 			}
 		}
 	}
+}
+
+// r10OwnID: v is handleRequest's own id parameter (possibly captured by the closure fn).
+func r10OwnID(hr, fn *ssa.Function, v ssa.Value) bool {
+	var idParam *ssa.Parameter
+	for _, p := range hr.Params {
+		if p.Name() == "id" {
+			idParam = p
+		}
+	}
+	if idParam == nil {
+		return false
+	}
+	if pp := ParamOf(v); pp != nil {
+		return pp == idParam
+	}
+	// captured: a FreeVar (or a load of a captured cell) bound to the parameter
+	if u, ok := v.(*ssa.UnOp); ok {
+		v = u.X
+	}
+	fv, ok := v.(*ssa.FreeVar)
+	if !ok || fn.Parent() == nil {
+		return false
+	}
+	idx := -1
+	for i, f := range fn.FreeVars {
+		if f == fv {
+			idx = i
+		}
+	}
+	if idx < 0 {
+		return false
+	}
+	for _, b := range fn.Parent().Blocks {
+		for _, in := range b.Instrs {
+			if mc, ok := in.(*ssa.MakeClosure); ok && mc.Fn == ssa.Value(fn) && idx < len(mc.Bindings) {
+				bnd := mc.Bindings[idx]
+				if pp := ParamOf(bnd); pp != nil && pp == idParam {
+					return true
+				}
+				if al, ok := bnd.(*ssa.Alloc); ok {
+					for _, r := range *al.Referrers() {
+						if st, ok := r.(*ssa.Store); ok && st.Addr == ssa.Value(al) {
+							if pp := ParamOf(st.Val); pp != nil && pp == idParam {
+								return true
+							}
+						}
+					}
+				}
+			}
+		}
+	}
+	return false
+}
+
+// DerivesFromNarrowCalls follows loads, field selections, type assertions, conversions and phis (not call arguments).
+func DerivesFromNarrowCalls(v ssa.Value, pred func(ssa.Value) bool) bool {
+	seen := map[ssa.Value]bool{}
+	var rec func(v ssa.Value) bool
+	rec = func(v ssa.Value) bool {
+		if v == nil || seen[v] {
+			return false
+		}
+		seen[v] = true
+		if pred(v) {
+			return true
+		}
+		switch x := v.(type) {
+		case *ssa.UnOp:
+			return rec(x.X)
+		case *ssa.FieldAddr:
+			return rec(x.X)
+		case *ssa.Field:
+			return rec(x.X)
+		case *ssa.TypeAssert:
+			return rec(x.X)
+		case *ssa.Extract:
+			return rec(x.Tuple)
+		case *ssa.ChangeType:
+			return rec(x.X)
+		case *ssa.ChangeInterface:
+			return rec(x.X)
+		case *ssa.MakeInterface:
+			return rec(x.X)
+		case *ssa.Convert:
+			return rec(x.X)
+		case *ssa.Phi:
+			for _, e := range x.Edges {
+				if rec(e) {
+					return true
+				}
+			}
+		}
+		return false
+	}
+	return rec(v)
 }
